@@ -55,6 +55,10 @@ var c17Files = []string{
 	c17Root + "/safe/br[a].txt",
 	c17Root + "/safe/bs\\.txt",
 	c17Root + "/other/d.txt",
+	c17Root + "/other/e.txt",
+	c17Root + "/other/ads-1.txt",
+	c17Root + "/other/ads-2.txt",
+	c17Root + "/other/x.lst",
 	c17Root + "/other/safe/e.txt",
 	c17Root + "/safe2/f.txt",
 	c17Root + "/top.txt",
@@ -164,6 +168,10 @@ func c17Setup() *c17World {
 func c17Teardown() {
 	if c17W == nil {
 		return
+	}
+	if c17Seq != nil {
+		c17Seq.Close()
+		c17Seq = nil
 	}
 	c17W.srv.Close()
 	_ = os.RemoveAll(c17W.dataDir)
@@ -281,38 +289,17 @@ func c17TakeList(f []string) (items, rest []string) {
 	return items, f[1+n:]
 }
 
-// c17RunEntry executes add / set_url / refresh on a fresh DNSFilter.
-func c17RunEntry(op string, pats []string, loc string, enabled bool) (obs []string) {
-	w := c17Setup()
-	fdir := filepath.Join(w.dataDir, filterDir)
-	_ = os.RemoveAll(fdir)
-	if err := os.MkdirAll(fdir, 0o755); err != nil {
-		panic(err)
-	}
-	if op != "C17.refresh" && !utf8.ValidString(loc) {
-		panic("harness: JSON entry points need a valid UTF-8 location")
-	}
-
+// c17NewFilter creates a DNSFilter with the given patterns and initial lists.
+// obs is non-nil when filtering.New rejects the patterns.
+func c17NewFilter(w *c17World, pats []string, filters []FilterYAML) (d *DNSFilter, obs []string) {
 	conf := &Config{
 		FilteringEnabled: true,
 		SafeFSPatterns:   pats,
 		HTTPClient:       w.client,
 		ConfigModified:   func() {},
 		DataDir:          w.dataDir,
+		Filters:          filters,
 	}
-	listFile := filepath.Join(fdir, "1.txt")
-	switch op {
-	case "C17.seturl":
-		conf.Filters = []FilterYAML{{Enabled: true, URL: c17OldURL, Name: "old", Filter: Filter{ID: 1}}}
-	case "C17.refresh":
-		conf.Filters = []FilterYAML{{Enabled: true, URL: loc, Name: "old", Filter: Filter{ID: 1}}}
-	}
-	if op != "C17.add" {
-		if err := os.WriteFile(listFile, []byte(c17OldBody), 0o644); err != nil {
-			panic(err)
-		}
-	}
-
 	d, err := New(conf, nil)
 	if err != nil {
 		msg := err.Error()
@@ -320,15 +307,108 @@ func c17RunEntry(op string, pats []string, loc string, enabled bool) (obs []stri
 		if i := strings.Index(msg, marker); i >= 0 {
 			rest := msg[i+len(marker):]
 			if j := strings.IndexByte(rest, ':'); j > 0 {
-				return []string{"conferr", rest[:j]}
+				return nil, []string{"conferr", rest[:j]}
 			}
 		}
 		panic(err)
 	}
-	defer d.Close()
 	// What Start() does, without the background goroutine.
 	d.filtersInitializerChan = make(chan filtersInitializerParams, 1)
 
+	return d, nil
+}
+
+func c17ResetDataDir(w *c17World, withOld bool) (fdir string) {
+	fdir = filepath.Join(w.dataDir, filterDir)
+	_ = os.RemoveAll(fdir)
+	if err := os.MkdirAll(fdir, 0o755); err != nil {
+		panic(err)
+	}
+	if withOld {
+		if err := os.WriteFile(filepath.Join(fdir, "1.txt"), []byte(c17OldBody), 0o644); err != nil {
+			panic(err)
+		}
+	}
+
+	return fdir
+}
+
+func c17Baseline(op, loc string) []FilterYAML {
+	switch op {
+	case "C17.seturl", "C17.sseturl":
+		return []FilterYAML{{Enabled: true, URL: c17OldURL, Name: "old", Filter: Filter{ID: 1}}}
+	case "C17.refresh", "C17.srefresh":
+		return []FilterYAML{{Enabled: true, URL: loc, Name: "old", Filter: Filter{ID: 1}}}
+	}
+
+	return nil
+}
+
+// c17RunEntry executes add / set_url / refresh on a fresh DNSFilter.
+func c17RunEntry(op string, pats []string, loc string, enabled bool) (obs []string) {
+	w := c17Setup()
+	fdir := c17ResetDataDir(w, op != "C17.add")
+	if op != "C17.refresh" && !utf8.ValidString(loc) {
+		panic("harness: JSON entry points need a valid UTF-8 location")
+	}
+	d, cobs := c17NewFilter(w, pats, c17Baseline(op, loc))
+	if cobs != nil {
+		return cobs
+	}
+	defer d.Close()
+
+	return c17Exec(w, d, fdir, op, loc, enabled)
+}
+
+// c17Seq is the long-lived instance of the sequence mode: ONE DNSFilter per
+// block, so that anything the implementation remembers between requests
+// (caches, memoised decisions) takes part in the later steps.
+var c17Seq *DNSFilter
+
+func c17RunConf(pats []string) []string {
+	w := c17Setup()
+	if c17Seq != nil {
+		c17Seq.Close()
+		c17Seq = nil
+	}
+	c17ResetDataDir(w, false)
+	d, cobs := c17NewFilter(w, pats, nil)
+	if cobs != nil {
+		return cobs
+	}
+	c17Seq = d
+
+	return []string{"ok"}
+}
+
+// c17RunStep runs one entry point on the long-lived instance.  The list
+// configuration and the data directory are put back to the same baseline as in
+// the stateless cases before every step; the DNSFilter object is kept.
+func c17RunStep(op string, loc string, enabled bool) []string {
+	w := c17Setup()
+	d := c17Seq
+	if d == nil {
+		return []string{"noconf"}
+	}
+	if op != "C17.srefresh" && !utf8.ValidString(loc) {
+		panic("harness: JSON entry points need a valid UTF-8 location")
+	}
+	fdir := c17ResetDataDir(w, op != "C17.sadd")
+	base := c17Baseline(op, loc)
+	func() {
+		d.conf.filtersMu.Lock()
+		defer d.conf.filtersMu.Unlock()
+		d.conf.Filters = base
+		d.conf.WhitelistFilters = nil
+	}()
+	// what New does with the configured lists
+	d.loadFilters(d.conf.Filters)
+
+	return c17Exec(w, d, fdir, "C17."+strings.TrimPrefix(op, "C17.s"), loc, enabled)
+}
+
+// c17Exec runs the entry point on d and observes the result.
+func c17Exec(w *c17World, d *DNSFilter, fdir, op, loc string, enabled bool) (obs []string) {
 	defer func() {
 		if v := recover(); v != nil {
 			obs = []string{"panic", c17PanicKind(v)}
@@ -424,6 +504,12 @@ func c17Run(f []string) []string {
 		pats, rest := c17TakeList(f[1:])
 
 		return c17RunEntry(f[0], pats, vutil.Unhex(rest[0]), vutil.UnB(rest[4]))
+	case "C17.conf":
+		pats, _ := c17TakeList(f[1:])
+
+		return c17RunConf(pats)
+	case "C17.sadd", "C17.sseturl", "C17.srefresh":
+		return c17RunStep(f[0], vutil.Unhex(f[1]), vutil.UnB(f[5]))
 	}
 	panic("unknown op " + f[0])
 }
@@ -886,6 +972,114 @@ func c17Gen(r *rand.Rand, emit vutil.Emit) {
 			emit(line...)
 		}
 	}
+}
+
+// c17NarrowPattern builds a well-formed pattern that selects SOME files of
+// dir, never the whole directory: exact (escaped) paths, prefix-*, ?, classes.
+func c17NarrowPattern(r *rand.Rand, dir string, files []string) string {
+	f := vutil.Pick(r, files)
+	base := path.Base(f)
+	ext := path.Ext(base)
+	stem := strings.TrimSuffix(base, ext)
+	switch r.IntN(8) {
+	case 0, 1, 2:
+		return c17EscapeMeta(f)
+	case 3:
+		if i := strings.IndexByte(stem, '-'); i > 0 {
+			return dir + "/" + c17EscapeMeta(stem[:i+1]) + "*" + ext
+		}
+
+		return dir + "/" + c17EscapeMeta(stem) + "*"
+	case 4:
+		if len(stem) > 0 && stem[0] < 0x80 {
+			return dir + "/" + c17EscapeMeta(stem[:1]) + "*"
+		}
+
+		return c17EscapeMeta(f)
+	case 5:
+		return dir + "/?" + ext
+	case 6:
+		if len(base) > 0 && base[0] < 0x80 && base[0] > ' ' && !strings.ContainsAny(base[:1], "*?[\\]^-") {
+			return dir + "/[" + base[:1] + "]" + c17EscapeMeta(base[1:])
+		}
+
+		return c17EscapeMeta(f)
+	default:
+		return dir + "/*" + ext
+	}
+}
+
+// c17GenSeq emits blocks: one configuration, then a sequence of add / set_url
+// / refresh steps that keep coming back to the same few directories with
+// matching and non-matching files interleaved.
+func c17GenSeq(r *rand.Rand, emit vutil.Emit) {
+	w := c17Setup()
+	nblocks := vutil.N(600)
+	byDir := map[string][]string{}
+	var dirs []string
+	for _, f := range c17Files {
+		d := path.Dir(f)
+		if _, ok := byDir[d]; !ok {
+			dirs = append(dirs, d)
+		}
+		byDir[d] = append(byDir[d], f)
+	}
+	for b := 0; b < nblocks; b++ {
+		dir := vutil.Pick(r, dirs)
+		files := byDir[dir]
+		var pats []string
+		for k := 1 + r.IntN(2); k > 0; k-- {
+			p := c17NarrowPattern(r, dir, files)
+			if _, err := filepath.Match(p, "test"); err == nil {
+				pats = append(pats, p)
+			}
+		}
+		if r.IntN(12) == 0 {
+			pats = nil
+		}
+		if r.IntN(10) == 0 {
+			// a second directory under its own narrow pattern
+			d2 := vutil.Pick(r, dirs)
+			pats = append(pats, c17NarrowPattern(r, d2, byDir[d2]))
+		}
+		emit(append([]string{"C17.conf"}, c17HexList(pats)...)...)
+		steps := 5 + r.IntN(10)
+		for s := 0; s < steps; s++ {
+			var t string
+			switch x := r.IntN(20); {
+			case x < 14:
+				t = vutil.Pick(r, files)
+			case x < 16:
+				t = dir
+			case x < 17:
+				t = dir + "/nope.txt"
+			default:
+				t = c17Target(r)
+			}
+			loc := t
+			if r.IntN(5) == 0 {
+				loc = c17Spell(r, t, 0)
+			}
+			op := vutil.Pick(r, []string{"C17.sadd", "C17.sseturl", "C17.srefresh", "C17.srefresh"})
+			if op != "C17.srefresh" && !utf8.ValidString(loc) {
+				loc = strings.ToValidUTF8(loc, "_")
+			}
+			if loc == c17OldURL {
+				continue
+			}
+			kind, ok := w.c17Kind(loc)
+			if !ok {
+				continue
+			}
+			enabled := op != "C17.sseturl" || r.IntN(4) > 0
+			emit(op, vutil.Hex(loc), kind, vutil.B(c17URLOK(loc)), vutil.B(w.fetchOK(loc)), vutil.B(enabled))
+		}
+	}
+}
+
+func TestVerifC17Seq(t *testing.T) {
+	t.Cleanup(c17Teardown)
+	vutil.Main(t, c17GenSeq, c17Run)
 }
 
 func TestVerifC17(t *testing.T) {
